@@ -940,6 +940,51 @@ def check_opes(run, exe, model, cases, scratch):
 
 
 # ==========================================================================================
+# the order of the two halves of write_state_to_replicas, as the operating system sees it
+# ==========================================================================================
+
+def check_rewrite_order(run, exe, scratch):
+    """The model (ev_ok proto) and the view-mode stream present a state-file rewrite as: hills file removed and
+    created again, THEN state file renamed into place.  Which order the code uses cannot be seen from the files
+    after the step; it is read off the system calls of a walker (strace)."""
+    import shutil as _sh
+    if not _sh.which("strace"):
+        run.dist("order:strace-not-available")
+        return
+    d = os.path.join(scratch, "order")
+    _sh.rmtree(d, ignore_errors=True)
+    os.makedirs(d)
+    case = {"nbins": NB, "hillfreq": 1, "upfreq": 1}
+    L = scen.meta_setup(case, "w0", os.path.join(d, "registry.txt"), "out0", 3)
+    for b in range(2, 9):
+        L += ["pos 1 0 0 %s" % float(b + 0.5).hex(), "step"]
+    L += ["postrun", "quit"]
+    open(os.path.join(d, "in.scn"), "w").write("\n".join(L) + "\n")
+    rc, o, e = V.sh(["strace", "-f", "-o", "trace.txt", "-e", "trace=rename,renameat,renameat2,unlink,unlinkat", exe, "in.scn"], cwd=d, timeout=120)
+    try:
+        lines = open(os.path.join(d, "trace.txt")).read().split("\n")
+    except OSError:
+        run.dist("order:strace-failed")
+        return
+    seq = []
+    for ln in lines:
+        if "unlink" in ln and ".hills" in ln and "= 0" in ln:
+            seq.append("B")
+        elif "rename" in ln and ".state.tmp" in ln and "w0.state" in ln and "= 0" in ln:
+            seq.append("A")
+    run.count("order:" + "".join(seq), True)
+    run.dist("order:checked")
+    run.sample({"kind": "order", "syscalls": "".join(seq), "meaning": "B = hills file unlinked, A = state file renamed into place"}, cap=9)
+    # setup_output: B A ; every write_state_to_replicas after that must be B A as well
+    pairs = ["".join(seq[i:i + 2]) for i in range(0, len(seq) - 1, 2)]
+    if len(seq) < 4 or len(seq) % 2 or any(p != "BA" for p in pairs):
+        run.violation("meta:state-rewrite-order", "a walker writing its state every 3 steps performed the removals of its hills file (B) and the "
+                      "renamings of its state file (A) in the order %s; the model, and a reader that exchanges in between, need B before A "
+                      "every time (C14_meta_prefix_old_order_refuted shows what is lost otherwise)" % "".join(seq),
+                      {"kind": "order", "scenario": L, "syscalls": seq})
+
+
+# ==========================================================================================
 
 def load_corpus():
     cases = []
@@ -971,6 +1016,7 @@ def check(run):
     run.cov["rule"] = ("one case = one generated schedule (interleaving of walker steps, exchange points, restarts, visibility prefixes) run on "
                        "2-4 real walker processes and on the extracted model; distinct = distinct event list + frequencies")
     try:
+        check_rewrite_order(run, exe, scratch)
         run_cases(run, exe, model, load_corpus(), scratch)
         na, nm, nv, nr = (60, 45, 30, 12) if quick else (1500, 1200, 800, 300)
         cases = [gen_abf(r, "a%d" % i) for i in range(na)]
